@@ -75,6 +75,28 @@ func (x *Exec) bigFromTC(w []*Term) TupleV {
 }
 
 func registerMoreIntrinsics() {
+	intrinsics["os.Getenv"] = func(x *Exec, st *State, fr *Frame, fn *ssa.Function, a []Value) (Value, int) {
+		k := x.concStr(a[0], "os.Getenv key")
+		if v, ok := st.ghost["$env:"+k]; ok {
+			return ret1(v)
+		}
+		return ret1(x.strConst(""))
+	}
+	intrinsics["os.LookupEnv"] = func(x *Exec, st *State, fr *Frame, fn *ssa.Function, a []Value) (Value, int) {
+		k := x.concStr(a[0], "os.LookupEnv key")
+		if v, ok := st.ghost["$env:"+k]; ok {
+			return ret1(TupleV{v, x.tc.True})
+		}
+		return ret1(TupleV{x.strConst(""), x.tc.False})
+	}
+	intrinsics[zz+"Setenv"] = func(x *Exec, st *State, fr *Frame, fn *ssa.Function, a []Value) (Value, int) {
+		st.ghost["$env:"+x.concStr(a[0], "Setenv key")] = a[1]
+		st.mutGen++
+		return nil, 1
+	}
+	intrinsics["github.com/pkg/errors.callers"] = func(x *Exec, st *State, fr *Frame, fn *ssa.Function, a []Value) (Value, int) {
+		return ret1(PtrV{})
+	}
 	intrinsics["context.WithValue"] = func(x *Exec, st *State, fr *Frame, fn *ssa.Function, a []Value) (Value, int) {
 		cp := x.prog.ImportedPackage("context")
 		tn := cp.Type("valueCtx")
